@@ -359,3 +359,70 @@ Fixpoint grun (c : cfg) (g : sid * bool) (h : list (devent * handshake)) : bool 
 (* the events of one test *)
 Definition of_test (t : tid) (x : devent * handshake) : bool :=
   match event_test (fst x) with Some t' => t' =? t | None => false end.
+
+(* ---- the request channels of the units (for "the run does not sit out retry delays") ----
+   [y_mail t]: cancel requests (OtherCancel / Shutdown) sent to unit t and not yet taken off its
+   channel. A broadcast made by DispatcherContext::run goes to every unit in running_tests after
+   the step; [r_unit] is handle_event's own send. A unit whose attempt is running takes requests
+   off its channel at any time ([SConsume]; an OtherCancel is then ignored, the test is allowed to
+   finish); a unit in the delay between attempts leaves the delay as soon as a cancel request is in
+   its channel (executor.rs, handle_delay_between_attempts). [unicast = false] is the dispatcher
+   before the repair of finding F10 (no per-unit repeat). *)
+
+Definition cancel_request (b : option broadcast) : bool :=
+  match b with Some BOtherCancel | Some (BShutdown _) => true | _ => false end.
+
+Record sys := mk_sys { y_d : dst; y_ps : pstate; y_mail : tid -> N }.
+
+Inductive sevent := SEvent (e : devent) | SConsume (t : tid).
+
+Definition deliver (unicast : bool) (d' : dstate) (rsp : response) (m : tid -> N) : tid -> N :=
+  fun t =>
+    m t
+    + (if cancel_request (broadcast_of (r_resp rsp)) && is_some (lookup t (d_running d')) then 1 else 0)
+    + (match r_unit rsp with
+       | Some u => if unicast && (u =? t) then 1 else 0
+       | None => 0
+       end).
+
+Definition sys_step (unicast : bool) (c : cfg) (y : sys) (x : sevent) : option sys :=
+  match x with
+  | SEvent e =>
+      let '(s', _, rsp) := dstep (y_d y) e in
+      match pstep c (y_ps y) e (r_hs rsp) with
+      | None => None
+      | Some ps' =>
+          Some (mk_sys s' ps'
+                       (match s' with
+                        | Live d' => deliver unicast d' rsp (y_mail y)
+                        | Panicked => y_mail y
+                        end))
+      end
+  | SConsume t =>
+      match ps_phase (y_ps y) t with
+      | PRunning _ =>
+          if 0 <? y_mail y t
+          then Some (mk_sys (y_d y) (y_ps y) (fun x => if x =? t then y_mail y t - 1 else y_mail y x))
+          else None
+      | _ => None
+      end
+  end.
+
+Fixpoint sys_run (unicast : bool) (c : cfg) (y : sys) (xs : list sevent) : option sys :=
+  match xs with
+  | [] => Some y
+  | x :: r => match sys_step unicast c y x with Some y' => sys_run unicast c y' r | None => None end
+  end.
+
+Definition sys0 (c : cfg) (mf : option N) (dbg : bool) : sys :=
+  mk_sys (Live (init_for c mf dbg)) pstate0 (fun _ => 0).
+
+(* a unit waiting in a retry delay although the run is being cancelled, with no cancel request in
+   its channel: it would sit out the whole delay *)
+Definition stuck_in_delay (y : sys) (t : tid) : bool :=
+  match y_d y with
+  | Live d =>
+      is_some (d_cancel d)
+      && match ps_phase (y_ps y) t with PDelay _ => y_mail y t =? 0 | _ => false end
+  | Panicked => false
+  end.
